@@ -308,7 +308,10 @@ def run_case(case, schedule, opts):
             if first_ok_end is not None:
                 later = [e for e in o_launch if e[0] > first_ok_end]
                 if later:
-                    V('c:launch-after-successful-final-execution', {'launches_after': len(later)})
+                    restarted = any(e[2] == 'restart' and e[3] == oref and (e[4] or {}).get('code') == 'RestartInitiated'
+                                    and e[0] < later[0][0] for e in ev)
+                    V('c:launch-after-successful-final-execution' + ('[after-restart-of-the-repeating-engine]' if restarted else ''),
+                      {'launches_after': len(later)})
             if not stopped:
                 V('c:observer-never-stops', {'notified_at': notif[0][1], 'now': K.clock})
         # A launch after the engine reported dead (an iteration that was already in flight when the kill or the kill
